@@ -24,6 +24,13 @@ def run(ctx):
     for r, t in [("R1", "one parser: acceptance decided by Opcode::try_from and ParseOp::parse_op only"), ("R2", "wrappers forward"), ("R3", "index table written only by validated constructors"),
                  ("R4", "access paths agree")]:
         ctx.rule(r, t)
+    # both execution paths decode immediates with the generated ParseOp::parse_op; that it decides on the bytes alone
+    # (fails only when next() runs dry, never on a size hint) is what makes streaming and slice parsing agree (C13 O5)
+    if not getattr(ctx, "_src", None):
+        from . import C13
+        from .C19 import _Only
+        ctx.rule("R5", "the shared operand parser decides on the bytes alone: an op with an immediate fails only when the iterator runs dry (C13 O5)")
+        C13.run(_Only(ctx, "O5", "R5"))
     f = prog.fn(B + "BytecodeMapped::try_from_bytes")
     if ctx.anchor("R1", "fn try_from_bytes", f):
         ctx.saw(f)
